@@ -9,6 +9,7 @@ import (
 	"context"
 	"crypto"
 	"crypto/rand"
+	"crypto/rsa"
 	"encoding/base64"
 	"fmt"
 	"io"
@@ -51,6 +52,7 @@ type Result struct {
 	Panic    string       // the handler panicked
 	ErrStr   string       // the error string of a 255 reply (which check refused the message)
 	Err      string       // the driver could not build/send the step (unknown fault, driver-side panic); nothing else is valid
+	Body     []byte       // the reply body as received
 	Effects  []env.Effect // journal entries added by this request
 	NewSess  int          // index of the session context created by this step, else -1
 	OK       bool         // every check the responder makes on this body should pass
@@ -78,6 +80,7 @@ type sess struct {
 	nonce    protocol.Nonce // TO0: from 21; TO1: from 31
 	hasNonce bool
 
+	badKex   bool // TO2: the HelloDevice named a suite that is not the driver's
 	has61    bool // TO2: learned from 61
 	proveDv  protocol.Nonce
 	xA       []byte
@@ -93,14 +96,15 @@ type sess struct {
 }
 
 type Driver struct {
-	e    *env.Env
-	dev  *env.Device
-	cfg  Config
-	ss   []*sess
-	nDI  int
-	pss  bool
-	ctx  context.Context
-	rvTo []protocol.RvTO2Addr
+	Other *env.Device // a second device enrolled with the same owner: faults "other-device" present its genuine proof
+	e     *env.Env
+	dev   *env.Device
+	cfg   Config
+	ss    []*sess
+	nDI   int
+	pss   bool
+	ctx   context.Context
+	rvTo  []protocol.RvTO2Addr
 }
 
 // NewDriver: dev is a device onboarded by DI whose voucher (1 entry, owner = env owner key) is in e.DB.
@@ -123,12 +127,12 @@ func isStart(m int) bool   { return m == 10 || m == 20 || m == 30 || m == 60 }
 func tunnelled(m int) bool { return m >= 65 && m <= 254 }
 
 var faults = map[int][]string{
-	22: {"to0d-hash", "nonce", "to1d-signer-stranger", "to1d-signer-mfg", "to1d-sig-flip", "no-entries", "entry-sig-flip", "ttl-zero"},
+	22: {"to0d-hash", "nonce", "to1d-signer-stranger", "to1d-signer-mfg", "to1d-sig-flip", "no-entries", "entry-sig-flip", "ttl-zero", "header-from-other-voucher", "to1d-sig-short"},
 	30: {"unknown-guid"},
-	32: {"nonce", "ueid-guid", "ueid-type", "signer", "sig-flip", "no-nonce-claim", "null-payload"},
+	32: {"nonce", "ueid-guid", "ueid-type", "signer", "sig-flip", "no-nonce-claim", "null-payload", "other-device", "nonce-type"},
 	60: {"unknown-guid", "kex-invalid", "cipher-unknown", "sigtype-mismatch"},
 	62: {"index-len", "index-neg", "index-big"},
-	64: {"nonce", "ueid", "signer", "sig-flip", "no-setup-nonce", "no-fdo-claim", "xb-garbage", "null-payload", "alg-unknown"},
+	64: {"nonce", "ueid", "signer", "sig-flip", "no-setup-nonce", "no-fdo-claim", "xb-garbage", "null-payload", "alg-unknown", "other-device", "alg-512", "sig-short"},
 	70: {"nonce"},
 }
 
@@ -153,6 +157,10 @@ func (d *Driver) Undetectable(msg int, fault string) bool {
 	case msg == 22 && fault == "ttl-zero" && d.e.AcceptTTL != nil:
 		ttl, err := d.e.AcceptTTL(0)
 		return err == nil && ttl > 0
+	case msg == 60 && fault == "kex-invalid":
+		// kex.Suite.Valid accepts every suite for RSA owner keys (tracked under C09), so the server cannot tell
+		_, isRSA := d.dev.Key.Public().(*rsa.PublicKey)
+		return isRSA
 	case msg == 64 && fault == "xb-garbage":
 		return d.cfg.Kex == kex.DHKEXid14Suite || d.cfg.Kex == kex.DHKEXid15Suite
 	}
@@ -204,11 +212,24 @@ func (d *Driver) Do(s Step) (res Result) {
 	b := d.build(s.Msg, bc, s.Fault)
 	body, enc := d.wrap(s.Msg, bc, b, s.Fault)
 
-	res.OK = (s.Fault == "" || d.Undetectable(s.Msg, s.Fault)) && b.has && (own || (tc != nil && s.Msg == 62))
+	// 62 has no session-dependent content; 12 carries an HMAC the manufacturer cannot check (it never sees the device secret)
+	res.OK = (s.Fault == "" || d.Undetectable(s.Msg, s.Fault)) && b.has && (own || (tc != nil && (s.Msg == 62 || s.Msg == 12)))
+	// the owner looks the voucher up by GUID at 60, 62, 64 and, when replacing it, at 70: once a completed TO2 has replaced
+	// it (the device now lives under the replacement GUID) those requests name a voucher that is gone
+	if s.Msg == 60 || s.Msg == 62 || s.Msg == 64 || (s.Msg == 70 && !d.cfg.Reuse) {
+		if _, err := d.e.DB.Voucher(d.ctx, d.dev.Cred.GUID); err != nil {
+			res.OK = false
+		}
+	}
 	res.Enc = tunnelled(s.Msg) && enc && own
 	res.Hmac = s.Msg == 66 && b.hmac && !mangles(s.Fault)
 	if tunnelled(s.Msg) && !enc {
 		res.OK = false
+	}
+	if s.Msg == 22 && d.e.AcceptTTL != nil && s.Fault != "ttl-zero" { // the deployment's policy may refuse or shorten
+		if ttl, err := d.e.AcceptTTL(WaitSeconds); err != nil || ttl == 0 {
+			res.OK = false
+		}
 	}
 
 	hdr := http.Header{}
@@ -219,6 +240,7 @@ func (d *Driver) Do(s Step) (res Result) {
 	resp := d.e.RT.Do(s.Msg, body, hdr)
 	rb, _ := io.ReadAll(resp.Body)
 	_ = resp.Body.Close()
+	res.Body = rb
 	res.Status = resp.StatusCode
 	if log := d.e.RT.Log; len(log) > 0 { // Do has just appended its exchange
 		res.Panic = log[len(log)-1].Panic
